@@ -160,6 +160,8 @@ type c02Case struct {
 	Route string `json:"route"`
 	Path  string `json:"path"`
 	Flame bool   `json:"flame_level,omitempty"`
+	// Spelled: the route was registered in this other spelling of the same route (blanks after ':' and ',')
+	Spelled string `json:"registered_spelling,omitempty"`
 	// sequence mode: Routes on one tree, History matched first (in order), then Path; the answer for Path
 	// must be the one a fresh tree gives
 	Routes  []string `json:"routes,omitempty"`
@@ -167,7 +169,7 @@ type c02Case struct {
 }
 
 // c02SeqRoutes / c02SeqPaths: the request sequences on trees with one or two routes.
-var c02SeqRoutes = []string{"/n/{x}/e", "/a/?{x}", "/{x}/{y}/{z}", "/n/?{m: **}", "/{m: **}/{x}", "/n/{x}/?{y}", "/{r: /[an]+/}/e", "/{m: **, capture: 2}/e", "/a/{x}-{y}/n", "/e"}
+var c02SeqRoutes = []string{"/n/{x}/e", "/a/?{x}", "/{x}/{y}/{z}", "/n/?{m: **}", "/{m: **}/{x}", "/n/{x}/?{y}", "/{r: /[an]+/}/e", "/{m: **, capture: 2}/e", "/a/{x}-{y}/n", "/e", "/{v}/e", "/{u}/n/{w}", "/{t: /[an]+/}/n"}
 
 type c02Ans struct {
 	found  bool
@@ -204,6 +206,19 @@ func c02SeqTree(p *route.Parser, routes []string) (route.Tree, bool) {
 
 // c02SeqReplay: History then Path on one fresh tree against Path alone on another.
 func c02SeqReplay(p *route.Parser, c c02Case) (bool, string) {
+	if c.Route != "" {
+		t, ok := c02SeqTree(p, c.Routes)
+		cat, _ := mkCatalogue(p, []string{c.Route})
+		if !ok || len(cat) != 1 {
+			return false, "routes not registrable as recorded"
+		}
+		leaf, params, found, pan := safeMatch(t, c.Path, nil)
+		if pan != nil || !found || leaf.Route() != c.Route {
+			return false, "the recorded route is not the one chosen"
+		}
+		bad, _, _ := c02Judge(ref.NewMatcher(), cat[0].Ref, c.Path, true, params)
+		return bad != "", bad
+	}
 	t1, ok1 := c02SeqTree(p, c.Routes)
 	t2, ok2 := c02SeqTree(p, c.Routes)
 	if !ok1 || !ok2 {
@@ -227,6 +242,7 @@ func c02Sequences(r *core.Run, p *route.Parser) {
 	r.Bounds["sequence_paths"] = len(paths)
 	n := len(c02SeqRoutes)
 	r.Parallel(func(w, nw int, l *core.Local) {
+		m := ref.NewMatcher()
 		for c := w; c < n*n; c += nw {
 			if r.Expired() {
 				return
@@ -242,9 +258,25 @@ func c02Sequences(r *core.Run, p *route.Parser) {
 			}
 			l.States++
 			fresh := make([]c02Ans, len(paths))
+			cat, _ := mkCatalogue(p, routes)
 			for i, pth := range paths {
 				t, _ := c02SeqTree(p, routes)
 				fresh[i] = c02Answer(t, pth)
+				// the values handed out with the chosen route are that route's own captures
+				if leaf, params, found, pan := safeMatch(t, pth, nil); found && pan == nil {
+					for _, cr := range cat {
+						if cr.Text != leaf.Route() {
+							continue
+						}
+						l.Evals++
+						l.Traces++
+						l.Transitions++
+						if bad, kind, _ := c02Judge(m, cr.Ref, pth, true, params); bad != "" {
+							l.Class("mismatch")
+							l.Violate(kind+"/two-route-tree", bad+fmt.Sprintf(" [routes %q, chosen %q, path %q]", routes, cr.Text, pth), c02Case{Routes: routes, Path: pth, Route: cr.Text})
+						}
+					}
+				}
 			}
 			var history []string
 			for _, p1 := range paths {
@@ -558,8 +590,33 @@ func c02Run(r *core.Run) {
 					l.Class("flame:" + kind)
 				}
 			}
+			// the same route registered in another spelling (no blank / several blanks after ':' and ','):
+			// same dispatch, same values, and the reserved parameter is still the canonical text
+			if sp := c02Respell(j.cr.Text); sp != j.cr.Text {
+				if f2, got2, ok2 := c02FlameBuild(sp); ok2 {
+					l.States++
+					for _, t := range j.seg.cands {
+						raw := j.emb.path(t)
+						l.Evals++
+						l.Transitions++
+						l.Traces++
+						l.Extra["flame_requests_on_respelled_routes"]++
+						if bad, kind := c02FlameEval(m, f2, got2, j.cr, raw); bad != "" {
+							l.Violate("flame/"+kind+"/respelled-route"+c02Qualify(kind, j.seg.text, raw), bad+fmt.Sprintf(" [route registered as %q (canonical %q), path %q]", sp, j.cr.Text, raw), c02Case{Route: j.cr.Text, Path: raw, Flame: true, Spelled: sp})
+							l.Class("mismatch")
+						} else {
+							l.Class("flame:" + kind)
+						}
+					}
+				}
+			}
 		}
 	})
+}
+
+// c02Respell: another spelling of the same route: the blank after ':' dropped, three blanks after ','.
+func c02Respell(text string) string {
+	return strings.ReplaceAll(strings.ReplaceAll(text, ": ", ":"), ", ", ",   ")
 }
 
 type c02Got struct {
@@ -632,7 +689,11 @@ func c02Replay(raw json.RawMessage) (bool, string) {
 	}
 	m := ref.NewMatcher()
 	if c.Flame {
-		f, got, ok := c02FlameBuild(cat[0].Text)
+		reg := cat[0].Text
+		if c.Spelled != "" {
+			reg = c.Spelled
+		}
+		f, got, ok := c02FlameBuild(reg)
 		if !ok {
 			return false, "registration panicked"
 		}
